@@ -482,11 +482,13 @@ class MarkdownNormalizer(Renderer):
         return self._render_code(element)
 
     def render_html_block(self, element: block.HTMLBlock) -> str:
+        self._skip_next_blank_line = False
         result = f"{self._prefix}{element.body}"
         self._prefix = self._second_prefix
         return result
 
     def render_thematic_break(self, _element: block.ThematicBreak) -> str:
+        self._skip_next_blank_line = False
         result = f"{self._prefix}* * *\n"
         self._prefix = self._second_prefix
         return result
@@ -531,6 +533,8 @@ class MarkdownNormalizer(Renderer):
         """Render a standard link reference definition:
         [label]: url "title"
         """
+        # Reset the skip flag since we're not rendering a blank line
+        self._skip_next_blank_line = False
         link_text = element.dest
         if element.title:
             link_text += f" {_normalize_title_quotes(element.title)}"
@@ -672,6 +676,8 @@ class MarkdownNormalizer(Renderer):
         Render a GFM table. Does not do whitespace padding and normalizes
         the delimiters to use three dashes consistently.
         """
+        # Reset the skip flag since we're not rendering a blank line
+        self._skip_next_blank_line = False
         lines: list[str] = []
         head, *body = element.children
         lines.append(self.render(head))
